@@ -43,6 +43,10 @@ var c12plan = msgsPlan{
 	// suspected defects of the unchanged tree (reported by reading): the matching proposal arrives when
 	// the hub's wait ends; a stray update response naming the virtual channel's id before the settlement
 	Edge: true,
+	// a stray version-1 update of an unknown channel while the victim is the proposee of an opening
+	Opening: true,
+	// M proposes a sub-channel, never completes the opening, later the matching funding update arrives
+	HalfOpen: true,
 	Extra: []extraScenario{
 		{Name: "hub-settle/M/hubsettle/stray-rej-virtual-id+hubsettle/valid"},
 		{Name: "hub-settle/M/hubsettle/stray-acc-virtual-id+hubsettle/valid"},
@@ -79,6 +83,9 @@ func c12check(ssc schedrun.Scenario, s *vsched.Sched, o any) []schedrun.Verdict 
 			out = append(out, schedrun.Verdict{Property: "C12", Clause: "harness-error", Site: obs.Pt + "/" + obs.Msg,
 				Detail: "the publication that was to fail never happened (" + obs.OwnRes + "): the case is vacuous"})
 		}
+		return append(out, probeVerdicts("C12", obs)...)
+	}
+	if obs.Variant == "opening" || obs.Variant == "halfopen" {
 		return append(out, probeVerdicts("C12", obs)...)
 	}
 	if obs.OwnHonest {
@@ -154,6 +161,11 @@ var c08rejHarness = schedrun.Harness{Name: "clients", Scenarios: msgsScenarios(c
 var c07mode = msgsMode{Prop: "C07"}
 
 var c07plan = msgsPlan{
+	// both ends of a virtual channel collude, honest-looking matched funding on both parents (one- and
+	// two-asset ledger channels): what the hub countersigns is judged on both channels
+	Extra: []extraScenario{{Name: "hub-collude/M/hubpair/valid"}, {Name: "hub2-collude/M/hubpair/valid"}},
+	// hand-written sub-channel proposal with balances 5:5 and funding agreement 0:10, accepted by the victim
+	SplitFund: true,
 	Points: []string{"open-v0", "open-v1", "paid-v1", "sub-v0", "sub-v1", "sub2-v1", "final-v1",
 		"await-subfund", "await-subfund2", "await-subsettle", "await-subsettle2", "await-subsettle-paid",
 		// the victim as hub, B's honest funding resp. settlement proposal waits at the hub: M's crafted one is MATCHED
@@ -188,7 +200,7 @@ func c07check(ssc schedrun.Scenario, s *vsched.Sched, o any) []schedrun.Verdict 
 		}
 		return keep
 	}
-	single := len(obs.Items) == 1 && !obs.Inflight
+	single := (obs.NCases == 1 || (obs.NCases == 0 && len(obs.Items) == 1)) && !obs.Inflight
 	for _, it := range obs.Items {
 		if !it.IsUpdate {
 			continue
